@@ -519,6 +519,45 @@ func init() {
 					r.ok("visitDocument/numDocs-guard", fnName(fn), c.pos(fn.Pos()), "every read and visitor call is dominated by num < footer.numDocs")
 				}
 			}
+			// (c) inside the guarded region the only exits before the visitor is first called are error returns
+			if guard != nil {
+				var vblk *ssa.BasicBlock
+				for _, b := range fn.Blocks {
+					for _, ins := range b.Instrs {
+						if call, ok := ins.(*ssa.Call); ok && call.Call.Value == ssa.Value(fn.Params[3]) {
+							vblk = b
+						}
+					}
+				}
+				early := ""
+				if vblk != nil {
+					for _, b := range fn.Blocks {
+						ret, ok := b.Instrs[len(b.Instrs)-1].(*ssa.Return)
+						if !ok || !guard.Dominates(b) {
+							continue
+						}
+						if !isNilConst(resolveLoad(ret.Results[0])) {
+							continue // error return
+						}
+						// a nil return that can be reached without passing the loop header of the visiting loop
+						hdr := vblk
+						for x := vblk; x != nil; x = x.Idom() {
+							if isLoopHeader(x) {
+								hdr = x
+								break
+							}
+						}
+						if !coveredFrom(guard, map[*ssa.BasicBlock]bool{hdr: true}, b) {
+							early = "a successful return at " + c.pos(retPos(ret, b)) + " can be reached before any stored value is visited: some records would deliver nothing"
+						}
+					}
+				}
+				if early != "" {
+					r.bad("visitDocument/no-early-success", fnName(fn), c.pos(fn.Pos()), early)
+				} else {
+					r.ok("visitDocument/no-early-success", fnName(fn), c.pos(fn.Pos()), "within the numDocs guard every successful return comes after the visiting loop")
+				}
+			}
 			// (b) keepGoing
 			var vcall *ssa.Call
 			for _, b := range fn.Blocks {
